@@ -134,7 +134,19 @@ def covTag (cfg : Config) : State → List Event → String → String
       | _ => acc
     covTag cfg (Spec.step cfg s e) es acc
 
+/-- the second criterion of a double heap recomputed by the harness from the documented formula vs the library's cost object
+    (relative tolerance 1e-9: a rearranged formula may round differently; a criterion mapped to another one does not pass) -/
+def costfnVerdict (crit mine lib : String) : String :=
+  if mine == lib then "ok cost-function-agrees" else
+  match parseExt mine, parseExt lib with
+  | some (.fin a), some (.fin b) =>
+    let absq := fun (q : Rat) => if q < 0 then -q else q
+    let m := max 1 (max (absq a) (absq b))
+    if decide (absq (a - b) ≤ m / 1000000000) then "ok cost-function-agrees-within-tolerance" else s!"FAIL cost-of-criterion-{crit}-differs-from-its-definition"
+  | _, _ => s!"FAIL cost-of-criterion-{crit}-differs-from-its-definition"
+
 def opsBuf (op : String) (ins outs : List String) : Option String :=
+  if op == "costfn" then (match ins, outs with | [c, m], [l] => some (costfnVerdict c m l) | _, _ => none) else
   if !op.startsWith "buf:" then none else
   if ins.contains "CRASH" then
     some ("FAIL the implementation crashed (signal " ++ outs.getLastD "?" ++ ") after the logged prefix of " ++ toString (outs.length - 1) ++ " events")
